@@ -330,6 +330,7 @@ def _child(args, conn, path, counter):
         conn.send(out)
     finally:
         conn.close()
+        env.cleanup_workdir()
 
 
 def _cpu_seconds(pid):
@@ -390,6 +391,10 @@ def _supervise(jobs, procs):
                 r["p"].join(timeout=5)
                 r["rx"].close()
                 running.pop(i)
+                try:
+                    os.remove(r["path"])
+                except OSError:
+                    pass
                 continue
             # watchdog: same case, CPU time advancing
             cnt = r["counter"].value
